@@ -34,7 +34,8 @@ ISIZE = {"i8": 1, "i16": 2, "i32": 4, "i64": 8, "u8": 1, "u16": 2, "u32": 4, "u6
 def _flag_get(V) -> bool:
     """the validation switch as the field setters see it (a ContextVar today; any object with `get()` after a rewrite)"""
     try:
-        return bool(V._VALIDATION_ENABLED.get())
+        from . import priv as PV       # the switch object is found (not named); else the flag is measured
+        return PV.validation_in_force(V)
     except Exception:  # noqa: BLE001
         return True
 
@@ -42,7 +43,8 @@ def _flag_get(V) -> bool:
 def _flag_force_on(V):
     """start a case with validation on, whatever an earlier case left behind (best effort: only a ContextVar can be set)"""
     try:
-        V._VALIDATION_ENABLED.set(True)
+        from . import priv as PV
+        PV.validation_switch(V).set(True)
     except Exception:  # noqa: BLE001
         pass
 
@@ -146,15 +148,16 @@ class World:
     # ---- field tables ---------------------------------------------------------------------------------------
     def fty_of(self, d) -> Optional[tuple]:
         V = self.V
+        from . import priv as PV           # element validator of an array descriptor: found on the object, not named
         if isinstance(d, V.StructArray):
-            c = d._validator._ctype
-            return ("arr", "structArray", ("s", self.tid_for(c), ctypes.sizeof(c)), d._len)
+            c = PV.element_validator(V, d)._ctype
+            return ("arr", "structArray", ("s", self.tid_for(c), ctypes.sizeof(c)), len(d))
         if isinstance(d, V.ByteArray):
-            return ("arr", "byteArray", "byte", d._len)
+            return ("arr", "byteArray", "byte", len(d))
         if isinstance(d, V.IntArray):
-            return ("arr", "intArray", self.kind_of(d._validator), d._len)
+            return ("arr", "intArray", self.kind_of(PV.element_validator(V, d)), len(d))
         if isinstance(d, V.FloatArray):
-            return ("arr", "floatArray", self.kind_of(d._validator), d._len)
+            return ("arr", "floatArray", self.kind_of(PV.element_validator(V, d)), len(d))
         if isinstance(d, V.Struct):
             return ("strct", self.tid_for(d._ctype), ctypes.sizeof(d._ctype))
         if isinstance(d, V.Char):
